@@ -97,7 +97,12 @@ static void ResetAdr(tAdrParts* pAdrParts) {
 }
 
 static Boolean ChkAdr(Byte Mask, tAdrParts* pAdrParts) {
-    if ((pAdrParts->Mode != 0xff) && ((Mask & (1 << pAdrParts->Mode)) == 0)) {
+    /* nothing decoded: the reason has already been reported */
+
+    if (pAdrParts->Mode == eModeNone) {
+        return False;
+    }
+    if ((Mask & (1 << pAdrParts->Mode)) == 0) {
         ResetAdr(pAdrParts);
         WrError(ErrNum_InvAddrMode);
         return False;
